@@ -971,7 +971,7 @@ func (x *Exec) checkCallsClauses(st *State, key string, fc *FuncContract, c *ssa
 
 var deterministicPrefixes = []string{"strings.", "strconv.", "bytes.", "unicode.", "unicode/utf8.", "path.", "net.(IP).", "net/netip.", "net.ParseIP", "net.ParseCIDR",
 	"net.SplitHostPort", "net.JoinHostPort", "net/url.(*URL).", "net/url.Parse", "net/url.(Values).", "net/url.QueryUnescape", "net/url.PathUnescape", "net/textproto.", "mime.", "encoding/hex.", "encoding/base64.", "crypto/sha256.",
-	"math.", "time.(Duration).", "os.(*File).Name", "time.ParseDuration", "time.Parse", "time.(Time).Format", "net/http.StatusText", "google.golang.org/grpc/metadata.", "google.golang.org/grpc/status.Error", "net/http.(*Request).BasicAuth", "net/http.(*Request).Context", "errors.Unwrap", "path/filepath.Clean", "path/filepath.Dir", "path/filepath.Base", "path/filepath.Join"}
+	"math.", "time.(Duration).", "os.(*File).Name", "time.ParseDuration", "time.Parse", "time.(Time).Format", "net/http.StatusText", "google.golang.org/grpc/metadata.", "google.golang.org/grpc/status.Error", "net/http.(*Request).BasicAuth", "net/http.(*Request).Context", "errors.Unwrap", "google.golang.org/protobuf/types/known/durationpb.(*Duration).AsDuration", "path/filepath.Clean", "path/filepath.Dir", "path/filepath.Base", "path/filepath.Join"}
 
 // isDeterministicExtern: external functions modelled as uninterpreted *functions* of their (value) arguments.
 func isDeterministicExtern(key string) bool {
